@@ -23,6 +23,8 @@ var c03Payloads = []struct{ name, text string }{
 	{"unterminated-string", "${{ 'x }}"},
 	// the malformed placeholder is not the first one in the string
 	{"after-valid-placeholder", "${{ 1 }}-${{ a + }}"},
+	// text that holds a closing marker of its own before the placeholder
+	{"after-closing-braces", "}} ${{ a + }}"},
 }
 
 // c03Quote renders text as a single-quoted YAML scalar.
@@ -282,8 +284,9 @@ func c03Check(r *vReport, sd *c03Seed, ps []*vPos, payload int) {
 				syn = true
 			}
 		}
-		if !syn && strings.Count(c03Payloads[payload].text, "${{") >= 2 {
-			// a field that takes exactly one expression rejects a text with two placeholders at the
+		if pt := c03Payloads[payload].text; !syn && (strings.Count(pt, "${{") >= 2 || !strings.HasPrefix(pt, "${{")) {
+			// a field that takes exactly one expression rejects a text with two placeholders (or with
+			// other text around the placeholder) at the
 			// YAML-to-AST level: reported at the scalar, which is what the statement asks for there
 			for _, d := range at {
 				if d.Kind == "syntax-check" {
